@@ -135,7 +135,7 @@ func genDL(purpose string) func(t *rapid.T) dlCase {
 		c.WinSize = rapid.IntRange(10, 15).Draw(t, "winsize")
 		c.WinMin = rapid.SampledFrom([]int64{1_000_000, 2_000_000, 5_000_000, 20_000_000}).Draw(t, "winmin")
 		c.WinMax = c.WinMin + rapid.SampledFrom([]int64{0, 0, 1_000_000, 15_000_000}).Draw(t, "winmaxd")
-		c.Threshold = rapid.SampledFrom([]int64{1, 1, 1000, 100_000, 2_000_000}).Draw(t, "threshold")
+		c.Threshold = rapid.SampledFrom([]int64{1, 1, 1000, 100_000, 2_000_000, 0, -5}).Draw(t, "threshold") // <= 0: no RTT filter at all
 		ev := rapid.Custom(func(t *rapid.T) dlEv {
 			switch k := rapid.IntRange(0, 21).Draw(t, "k"); {
 			case k >= 20:
@@ -559,6 +559,9 @@ func runDLInBubble(c dlCase, prop string) (out kit.Outcome) {
 			held = append(held[:k], held[k+1:]...)
 			perKey[tk.key]--
 			releasedOnce = true
+			if c.Threshold <= 0 && time.Since(t0) == tk.start {
+				time.Sleep(1) // without a filter a literal 0 ns sample would enter the window: outside the domain (0 is the window's "unset" marker)
+			}
 			now := time.Since(t0)
 			rtt := int64(now - tk.start)
 			end := time.Now().UnixNano()
